@@ -752,9 +752,163 @@ theorem fade_step_close (cur goal i n : Int) (hn : 0 < n) :
   generalize (goal - cur) * i / n = q at hnum
   generalize (goal - cur) * i % n = r at hnum hr0 hr ⊢
   have hfw := fadeChan_eq cur goal i n q r hn hnum hr0 hr
-  have hhost : Host.RGB.interp (α := K) cur goal i n = _ := by
+  have hhost : Host.RGB.interp (α := K) cur goal i n =
+      cur + q + (if 2 * r < n then 0 else if n < 2 * r then 1 else if (cur + q) % 2 = 0 then 0 else 1) := by
     rw [interp_eq, hnum]; exact roundHEK_rat cur q r n hn hr0 hr
   rw [hfw, hhost]
   split_ifs <;> omega
+
+/-! ### the RGB blocks -/
+
+def InRange (x : Int) : Prop := 0 ≤ x ∧ x ≤ 255
+def ColorOk (c : Int × Int × Int) : Prop := InRange c.1 ∧ InRange c.2.1 ∧ InRange c.2.2
+
+def writeSt (s : FRgb) (c : Int × Int × Int) : FRgb := { s with color := c, state := FRgb.isOn c }
+
+theorem write_eq (s : FRgb) (c : Int × Int × Int) :
+    FRgb.write s c = (writeSt s c, [.aWrite s.pins.1 c.1, .aWrite s.pins.2.1 c.2.1, .aWrite s.pins.2.2 c.2.2]) := rfl
+
+@[simp] theorem writeSt_pins (s : FRgb) (c : Int × Int × Int) : (writeSt s c).pins = s.pins := rfl
+@[simp] theorem writeSt_color (s : FRgb) (c : Int × Int × Int) : (writeSt s c).color = c := rfl
+theorem writeSt_writeSt (s : FRgb) (c c' : Int × Int × Int) : writeSt (writeSt s c) c' = writeSt s c' := rfl
+
+theorem duties_write (s : FRgb) (c : Int × Int × Int) (hc : ColorOk c) :
+    ∀ x ∈ dutiesL (FRgb.write s c).2, InRange x := by
+  intro x hx
+  simp only [write_eq, dutiesL_cons_aWrite, dutiesL_nil, List.mem_cons, List.not_mem_nil, or_false] at hx
+  rcases hx with rfl | rfl | rfl
+  · exact hc.1
+  · exact hc.2.1
+  · exact hc.2.2
+
+theorem clampC_ok (r g b : Val K) : ColorOk (FRgb.clampC r g b) :=
+  ⟨clamp255_bounds _, clamp255_bounds _, clamp255_bounds _⟩
+
+def fadeC (start target : Int × Int × Int) (i n : Int) : Int × Int × Int :=
+  (FRgb.fadeChan start.1 target.1 i n, FRgb.fadeChan start.2.1 target.2.1 i n,
+   FRgb.fadeChan start.2.2 target.2.2 i n)
+
+theorem fadeChan_inRange {s t i n : Int} (hs : InRange s) (ht : InRange t) (hn : 0 < n) (hi0 : 0 ≤ i) (hi : i ≤ n) :
+    InRange (FRgb.fadeChan s t i n) := by
+  obtain ⟨b1, b2⟩ := fadeChan_bounds (s := s) (t := t) hn hi0 hi
+  unfold InRange at *
+  rcases le_total s t with h | h
+  · have := b1 h; omega
+  · have := b2 h; omega
+
+theorem fadeC_ok {start target : Int × Int × Int} (hs : ColorOk start) (ht : ColorOk target) {i n : Int}
+    (hn : 0 < n) (hi0 : 0 ≤ i) (hi : i ≤ n) : ColorOk (fadeC start target i n) :=
+  ⟨fadeChan_inRange hs.1 ht.1 hn hi0 hi, fadeChan_inRange hs.2.1 ht.2.1 hn hi0 hi,
+   fadeChan_inRange hs.2.2 ht.2.2 hn hi0 hi⟩
+
+theorem fadeC_end (start target : Int × Int × Int) (n : Int) (hn : 0 < n) : fadeC start target n n = target := by
+  simp [fadeC, fadeChan_end _ _ _ hn]
+
+theorem fadeLoop_succ (start target : Int × Int × Int) (steps delayMs : Int) (k : Nat) (i : Int) (s : FRgb)
+    (acc : List Ev) :
+    FRgb.fadeLoop start target steps delayMs (k + 1) i s acc =
+      FRgb.fadeLoop start target steps delayMs k (i + 1) (writeSt s (fadeC start target i steps))
+        (acc ++ (FRgb.write s (fadeC start target i steps)).2 ++
+          (if i ≠ steps ∧ 0 < delayMs then [.delay delayMs] else [])) := rfl
+
+theorem fadeLoop_st (start target : Int × Int × Int) (steps delayMs : Int) (k : Nat) (i : Int) (s : FRgb)
+    (acc : List Ev) :
+    (FRgb.fadeLoop start target steps delayMs k i s acc).1 =
+      if k = 0 then s else writeSt s (fadeC start target (i + k - 1) steps) := by
+  induction k generalizing i s acc with
+  | zero => rfl
+  | succ k ih =>
+    rw [fadeLoop_succ, ih]
+    by_cases hk : k = 0
+    · subst hk; simp
+    · rw [if_neg hk, if_neg (Nat.succ_ne_zero k), writeSt_writeSt]
+      congr 2; push_cast; ring
+
+theorem fadeLoop_duties (start target : Int × Int × Int) (steps delayMs : Int) (k : Nat) (i : Int) (s : FRgb)
+    (acc : List Ev) (hacc : ∀ x ∈ dutiesL acc, InRange x)
+    (hc : ∀ j : Int, i ≤ j → j < i + k → ColorOk (fadeC start target j steps)) :
+    ∀ x ∈ dutiesL (FRgb.fadeLoop start target steps delayMs k i s acc).2, InRange x := by
+  induction k generalizing i s acc with
+  | zero => exact hacc
+  | succ k ih =>
+    rw [fadeLoop_succ]
+    apply ih
+    · intro x hx
+      simp only [dutiesL_append, List.mem_append] at hx
+      rcases hx with (hx | hx) | hx
+      · exact hacc x hx
+      · exact duties_write s _ (hc i (le_refl _) (by push_cast; omega)) x hx
+      · split at hx <;> simp at hx
+    · intro j h1 h2
+      exact hc j (by omega) (by push_cast; omega)
+
+theorem blinkLoop_succ (c : Int × Int × Int) (d : Int) (k : Nat) (s : FRgb) (acc : List Ev) :
+    FRgb.blinkLoop c d (k + 1) s acc =
+      FRgb.blinkLoop c d k (writeSt s (0, 0, 0))
+        (acc ++ (FRgb.write s c).2 ++ (if 0 < d then [.delay d] else []) ++ (FRgb.write s (0, 0, 0)).2 ++
+          (if 0 < d then [.delay d] else [])) := rfl
+
+theorem blinkLoop_pins (c : Int × Int × Int) (d : Int) (k : Nat) (s : FRgb) (acc : List Ev) :
+    (FRgb.blinkLoop c d k s acc).1.pins = s.pins := by
+  induction k generalizing s acc with
+  | zero => rfl
+  | succ k ih => rw [blinkLoop_succ, ih]; rfl
+
+theorem blinkLoop_duties (c : Int × Int × Int) (d : Int) (hc : ColorOk c) (k : Nat) (s : FRgb) (acc : List Ev)
+    (hacc : ∀ x ∈ dutiesL acc, InRange x) :
+    ∀ x ∈ dutiesL (FRgb.blinkLoop c d k s acc).2, InRange x := by
+  induction k generalizing s acc with
+  | zero => exact hacc
+  | succ k ih =>
+    rw [blinkLoop_succ]
+    apply ih
+    intro x hx
+    simp only [dutiesL_append, List.mem_append] at hx
+    rcases hx with (((hx | hx) | hx) | hx) | hx
+    · exact hacc x hx
+    · exact duties_write s c hc x hx
+    · split at hx <;> simp at hx
+    · exact duties_write s (0, 0, 0) ⟨by simp [InRange], by simp [InRange], by simp [InRange]⟩ x hx
+    · split at hx <;> simp at hx
+
+theorem component_ok_eq {v : Val K} {n : Int} (h : Host.RGB.component v = .ok n) : clamp255 (toCInt v) = n := by
+  cases v with
+  | flt x => simp [Host.RGB.component] at h
+  | int m =>
+    simp only [Host.RGB.component] at h
+    split_ifs at h with hm
+    cases h
+    exact clamp255_id hm.1 hm.2
+
+theorem triple_ok_eq {r g b : Val K} {c : Host.Color} (h : Host.RGB.triple r g b = .ok c) :
+    FRgb.clampC r g b = c := by
+  unfold Host.RGB.triple at h
+  cases hr : Host.RGB.component r with
+  | error e => simp [hr, bind, Except.bind] at h
+  | ok r' =>
+    cases hg : Host.RGB.component g with
+    | error e => simp [hr, hg, bind, Except.bind] at h
+    | ok g' =>
+      cases hb : Host.RGB.component b with
+      | error e => simp [hr, hg, hb, bind, Except.bind] at h
+      | ok b' =>
+        simp [hr, hg, hb, bind, Except.bind, pure, Except.pure] at h
+        subst h
+        simp [FRgb.clampC, component_ok_eq hr, component_ok_eq hg, component_ok_eq hb]
+
+/-- the state the firmware fade block ends in, whatever the arguments -/
+theorem fw_fade_st (s : FRgb) (r g b d n : Val K) :
+    (FRgb.step s (.fade r g b d n)).st = writeSt s (FRgb.clampC r g b) := by
+  simp only [FRgb.step]
+  generalize (if toCInt d < 0 then (0 : Int) else toCInt d) = dur
+  generalize hN : (if toCInt n ≤ 0 then (1 : Int) else toCInt n) = N
+  have hNpos : 0 < N := by rw [← hN]; split <;> omega
+  by_cases hc : dur = 0 ∨ s.color = FRgb.clampC r g b
+  · rw [if_pos hc]; rfl
+  · rw [if_neg hc]
+    show (FRgb.fadeLoop _ _ _ _ _ _ _ _).1 = _
+    rw [fadeLoop_st, if_neg (by omega)]
+    have : (1 : Int) + (N.toNat : Int) - 1 = N := by omega
+    rw [this, fadeC_end _ _ _ hNpos]
 
 end Reduino.Lemmas.C04
